@@ -859,6 +859,603 @@ fn interleavings(a: usize, b: usize) -> Vec<Vec<usize>> {
     out
 }
 
+// ------------------------------------------------------------------------------------------------
+// (c) real-thread STRESS oracles.
+//
+// The Gate wrapper above interleaves threads only at the pool-call boundary, so it cannot see
+//   class A: a limit check that is no longer atomic INSIDE a pool call (load → compare → add), nor
+//   class B: a reservation-side read-modify-write that is no longer atomic (e.g. `free` doing
+//            load → store(0) instead of swap(0)), which loses a concurrent update of `size`.
+// These detectors run free-running OS threads on the real code.  Every predicate checked here is
+// guaranteed by the property under EVERY schedule (reserved_eq_sum_live_at_quiescence,
+// greedy_limit_concurrent, fair_grant_within_reservation_share with one reservation per consumer),
+// so they cannot raise a false alarm on correct code; they are PROBABILISTIC detectors (they need the
+// OS to produce the bad interleaving) — a silent run proves nothing.  Work is bounded by iteration
+// counts, not by wall clock.  `stress_selftest` measures on every run how often they fire on
+// harness-local re-implementations carrying the two defect classes (counters/notes only).
+// ------------------------------------------------------------------------------------------------
+
+use std::sync::Barrier;
+use std::sync::atomic::{AtomicBool, AtomicUsize, Ordering as AO};
+
+#[derive(Clone, Copy, PartialEq, Debug)]
+enum Stack {
+    Bare,
+    TrackPeak,
+}
+impl Stack {
+    fn name(&self) -> &'static str {
+        match self {
+            Stack::Bare => "bare",
+            Stack::TrackPeak => "track+peak",
+        }
+    }
+}
+
+struct Built {
+    pool: Arc<dyn MemoryPool>,
+    track: Option<Arc<TrackConsumersPool<PeakRecordingPool>>>,
+}
+
+fn build(inner: Arc<dyn MemoryPool>, stack: Stack) -> Built {
+    match stack {
+        Stack::Bare => Built { pool: inner, track: None },
+        Stack::TrackPeak => {
+            let t = Arc::new(TrackConsumersPool::new(PeakRecordingPool::new(inner), NonZeroUsize::new(3).unwrap()));
+            Built { pool: Arc::clone(&t) as _, track: Some(t) }
+        }
+    }
+}
+
+/// Harness-local greedy pool carrying defect class A: the limit check and the addition are two
+/// separate atomic operations.  Used only by `stress_selftest`.
+#[derive(Debug)]
+struct RacyGreedy {
+    limit: usize,
+    used: AtomicUsize,
+}
+impl Display for RacyGreedy {
+    fn fmt(&self, f: &mut Formatter<'_>) -> std::fmt::Result {
+        write!(f, "racy-greedy({})", self.limit)
+    }
+}
+impl MemoryPool for RacyGreedy {
+    fn name(&self) -> &str {
+        "racy-greedy"
+    }
+    fn grow(&self, _r: &MemoryReservation, additional: usize) {
+        self.used.fetch_add(additional, AO::Relaxed);
+    }
+    fn shrink(&self, _r: &MemoryReservation, shrink: usize) {
+        self.used.fetch_sub(shrink, AO::Relaxed);
+    }
+    fn try_grow(&self, _r: &MemoryReservation, additional: usize) -> Result<()> {
+        let used = self.used.load(AO::Relaxed);
+        if used + additional > self.limit {
+            return Err(DataFusionError::ResourcesExhausted("racy-greedy".into()));
+        }
+        self.used.fetch_add(additional, AO::Relaxed);
+        Ok(())
+    }
+    fn reserved(&self) -> usize {
+        self.used.load(AO::Relaxed)
+    }
+}
+
+struct AConfig {
+    label: String,
+    inner: Arc<dyn MemoryPool>,
+    stack: Stack,
+    limit: usize,
+    n: usize,
+    spill: bool,
+    threads: usize,
+    iters: usize,
+}
+
+/// Class A detector: `threads` threads, each with its OWN consumer and reservation, do nothing but
+/// `try_grow(n)`; on Ok they count themselves as holder, read `pool.reserved()`, then `shrink(n)`.
+/// Must hold at every observation: `reserved() ≤ limit` and `holders × n ≤ limit`; at the end
+/// `reserved() = 0`.  Returns (witness, grants).
+fn stress_a(cfg: &AConfig) -> (Option<(&'static str, String)>, usize) {
+    let built = build(Arc::clone(&cfg.inner), cfg.stack);
+    let pool = built.pool;
+    let holders = Arc::new(AtomicUsize::new(0));
+    let grants = Arc::new(AtomicUsize::new(0));
+    let stop = Arc::new(AtomicBool::new(false));
+    let witness: Arc<Mutex<Option<(&'static str, String)>>> = Arc::new(Mutex::new(None));
+    let barrier = Arc::new(Barrier::new(cfg.threads));
+    let mut handles = vec![];
+    for t in 0..cfg.threads {
+        let r = MemoryConsumer::new(format!("c{t}")).with_can_spill(cfg.spill).register(&pool);
+        let (pool, holders, grants, stop, witness, barrier) =
+            (Arc::clone(&pool), Arc::clone(&holders), Arc::clone(&grants), Arc::clone(&stop), Arc::clone(&witness), Arc::clone(&barrier));
+        let (n, limit, iters) = (cfg.n, cfg.limit, cfg.iters);
+        handles.push(std::thread::spawn(move || {
+            barrier.wait();
+            let body = hutil::catch(AssertUnwindSafe(|| {
+                for _ in 0..iters {
+                    if stop.load(AO::Relaxed) {
+                        break;
+                    }
+                    if r.try_grow(n).is_ok() {
+                        let c = holders.fetch_add(1, AO::SeqCst) + 1;
+                        let seen = pool.reserved();
+                        if seen > limit || c * n > limit {
+                            witness.lock().unwrap().get_or_insert((
+                                "limit-exceeded",
+                                format!("thread {t}: after a granted try_grow({n}): reserved()={seen}, {c} simultaneous holders of {n} bytes, limit {limit}"),
+                            ));
+                            stop.store(true, AO::Relaxed);
+                        }
+                        grants.fetch_add(1, AO::Relaxed);
+                        holders.fetch_sub(1, AO::SeqCst);
+                        r.shrink(n);
+                    }
+                }
+            }));
+            if let Err(m) = body {
+                witness.lock().unwrap().get_or_insert(("unexpected-panic", format!("thread {t} panicked: {m}")));
+                stop.store(true, AO::Relaxed);
+            }
+            r // keep the registration alive until every thread is done
+        }));
+    }
+    let rs: Vec<MemoryReservation> = handles.into_iter().filter_map(|h| h.join().ok()).collect();
+    let mut w = witness.lock().unwrap().take();
+    let sum: usize = rs.iter().map(|r| r.size()).sum();
+    if w.is_none() && pool.reserved() != sum {
+        w = Some(("reserved-ne-sum-at-quiescence", format!("after all threads finished: reserved()={} but reservations hold {sum}", pool.reserved())));
+    }
+    drop(rs);
+    if w.is_none() && pool.reserved() != 0 {
+        w = Some(("nonzero-after-drop", format!("reserved()={} after dropping every reservation", pool.reserved())));
+    }
+    (w, grants.load(AO::Relaxed))
+}
+
+/// the reservation API as the stress threads use it (panics are caught per call)
+trait ResApi: Send + Sync {
+    fn size(&self) -> usize;
+    fn grow(&self, n: usize);
+    fn try_grow(&self, n: usize) -> bool;
+    fn shrink(&self, n: usize) -> bool;
+    fn try_shrink(&self, n: usize) -> bool;
+    fn free(&self) -> usize;
+    fn resize(&self, cap: usize) -> bool;
+    fn try_resize(&self, cap: usize) -> bool;
+    fn split(&self, n: usize) -> Option<Box<dyn ResApi>>;
+    fn new_empty(&self) -> Box<dyn ResApi>;
+}
+
+impl ResApi for MemoryReservation {
+    fn size(&self) -> usize {
+        MemoryReservation::size(self)
+    }
+    fn grow(&self, n: usize) {
+        MemoryReservation::grow(self, n)
+    }
+    fn try_grow(&self, n: usize) -> bool {
+        MemoryReservation::try_grow(self, n).is_ok()
+    }
+    fn shrink(&self, n: usize) -> bool {
+        hutil::catch(AssertUnwindSafe(|| MemoryReservation::shrink(self, n))).is_ok()
+    }
+    fn try_shrink(&self, n: usize) -> bool {
+        MemoryReservation::try_shrink(self, n).is_ok()
+    }
+    fn free(&self) -> usize {
+        MemoryReservation::free(self)
+    }
+    fn resize(&self, cap: usize) -> bool {
+        hutil::catch(AssertUnwindSafe(|| MemoryReservation::resize(self, cap))).is_ok()
+    }
+    fn try_resize(&self, cap: usize) -> bool {
+        MemoryReservation::try_resize(self, cap).is_ok()
+    }
+    fn split(&self, n: usize) -> Option<Box<dyn ResApi>> {
+        hutil::catch(AssertUnwindSafe(|| MemoryReservation::split(self, n))).ok().map(|r| Box::new(r) as Box<dyn ResApi>)
+    }
+    fn new_empty(&self) -> Box<dyn ResApi> {
+        Box::new(MemoryReservation::new_empty(self))
+    }
+}
+
+/// defect class B variants for the harness-local reservation
+#[derive(Clone, Copy, PartialEq, Debug)]
+enum Defect {
+    /// `free`: load → store(0) instead of swap(0)
+    FreeLoadStore,
+    /// `grow/try_grow`: load → store(+n) instead of fetch_add
+    GrowLoadStore,
+    /// `shrink/try_shrink/split`: load → check → store(−n) instead of fetch_update
+    ShrinkLoadStore,
+}
+
+/// Harness-local re-implementation of `MemoryReservation` (same order of pool call and size update
+/// as memory_pool/mod.rs) with ONE read-modify-write made non-atomic.  The pool is the real one;
+/// `anchor` is a real reservation that only provides the consumer identity.  Used by `stress_selftest`.
+struct RacyRes {
+    anchor: Arc<MemoryReservation>,
+    pool: Arc<dyn MemoryPool>,
+    size: AtomicUsize,
+    defect: Defect,
+}
+impl RacyRes {
+    fn add(&self, n: usize) {
+        if self.defect == Defect::GrowLoadStore {
+            let v = self.size.load(AO::Relaxed);
+            self.size.store(v + n, AO::Relaxed);
+        } else {
+            self.size.fetch_add(n, AO::Relaxed);
+        }
+    }
+    fn sub_checked(&self, n: usize) -> bool {
+        if self.defect == Defect::ShrinkLoadStore {
+            let v = self.size.load(AO::Relaxed);
+            match v.checked_sub(n) {
+                Some(x) => {
+                    self.size.store(x, AO::Relaxed);
+                    true
+                }
+                None => false,
+            }
+        } else {
+            self.size.fetch_update(AO::Relaxed, AO::Relaxed, |p| p.checked_sub(n)).is_ok()
+        }
+    }
+}
+impl ResApi for RacyRes {
+    fn size(&self) -> usize {
+        self.size.load(AO::Relaxed)
+    }
+    fn grow(&self, n: usize) {
+        self.pool.grow(&self.anchor, n);
+        self.add(n);
+    }
+    fn try_grow(&self, n: usize) -> bool {
+        if self.pool.try_grow(&self.anchor, n).is_err() {
+            return false;
+        }
+        self.add(n);
+        true
+    }
+    fn shrink(&self, n: usize) -> bool {
+        if !self.sub_checked(n) {
+            return false;
+        }
+        self.pool.shrink(&self.anchor, n);
+        true
+    }
+    fn try_shrink(&self, n: usize) -> bool {
+        self.shrink(n)
+    }
+    fn free(&self) -> usize {
+        let v = if self.defect == Defect::FreeLoadStore {
+            let v = self.size.load(AO::Relaxed);
+            self.size.store(0, AO::Relaxed);
+            v
+        } else {
+            self.size.swap(0, AO::Relaxed)
+        };
+        if v != 0 {
+            self.pool.shrink(&self.anchor, v);
+        }
+        v
+    }
+    fn resize(&self, cap: usize) -> bool {
+        let s = self.size.load(AO::Relaxed);
+        if cap > s {
+            self.grow(cap - s);
+            true
+        } else if cap < s {
+            self.shrink(s - cap)
+        } else {
+            true
+        }
+    }
+    fn try_resize(&self, cap: usize) -> bool {
+        let s = self.size.load(AO::Relaxed);
+        if cap > s {
+            self.try_grow(cap - s)
+        } else if cap < s {
+            self.shrink(s - cap)
+        } else {
+            true
+        }
+    }
+    fn split(&self, n: usize) -> Option<Box<dyn ResApi>> {
+        if !self.sub_checked(n) {
+            return None;
+        }
+        Some(Box::new(RacyRes { anchor: Arc::clone(&self.anchor), pool: Arc::clone(&self.pool), size: AtomicUsize::new(n), defect: self.defect }))
+    }
+    fn new_empty(&self) -> Box<dyn ResApi> {
+        Box::new(RacyRes { anchor: Arc::clone(&self.anchor), pool: Arc::clone(&self.pool), size: AtomicUsize::new(0), defect: self.defect })
+    }
+}
+impl Drop for RacyRes {
+    fn drop(&mut self) {
+        ResApi::free(self);
+    }
+}
+
+const B_OPS: [&str; 8] = ["grow", "try_grow", "shrink", "try_shrink", "free", "resize", "try_resize", "split"];
+
+/// one call of op number `op` on the shared reservation; split-off reservations go to `mine`
+fn b_call(r: &dyn ResApi, op: usize, rng: &mut Rng, mine: &mut Vec<Box<dyn ResApi>>) {
+    let n = *rng.pick(&[1usize, 2, 3, 5, 8]);
+    match op {
+        0 => r.grow(n),
+        1 => {
+            r.try_grow(n);
+        }
+        2 => {
+            r.shrink(n);
+        }
+        3 => {
+            r.try_shrink(n);
+        }
+        4 => {
+            r.free();
+        }
+        5 => {
+            r.resize(*rng.pick(&[0usize, 4, 16, 64]));
+        }
+        6 => {
+            r.try_resize(*rng.pick(&[0usize, 4, 16, 64]));
+        }
+        _ => {
+            if let Some(x) = r.split(*rng.pick(&[1usize, 2, 5])) {
+                mine.push(x);
+            } else if rng.chance(1, 8) {
+                let e = r.new_empty();
+                e.try_grow(n);
+                mine.push(e);
+            }
+            if mine.len() > 6 {
+                // dropping a sibling reservation = free + (not last) no unregister, concurrently
+                let i = rng.below(mine.len() as u64) as usize;
+                drop(mine.swap_remove(i));
+            }
+        }
+    }
+}
+
+/// Class B detector, one round: three threads hammer ONE shared reservation — thread 0 mostly op
+/// `a`, thread 1 mostly op `b`, thread 2 keeps it filled — then, at quiescence:
+/// `reserved() = Σ size()` of the live reservations, tracked consumer = Σ, peak ≥ current, and
+/// 0 / nothing tracked after dropping everything.
+fn stress_b_round(
+    inner: Arc<dyn MemoryPool>,
+    stack: Stack,
+    make: &dyn Fn(&Arc<dyn MemoryPool>) -> Box<dyn ResApi>,
+    a: usize,
+    b: usize,
+    iters: usize,
+    seed: u64,
+) -> Option<(&'static str, String)> {
+    let built = build(inner, stack);
+    let pool = built.pool;
+    let shared: Arc<dyn ResApi> = Arc::from(make(&pool));
+    let barrier = Arc::new(Barrier::new(3));
+    let mut handles = vec![];
+    for t in 0..3usize {
+        let (shared, barrier) = (Arc::clone(&shared), Arc::clone(&barrier));
+        let mut rng = Rng::new(seed.wrapping_mul(3).wrapping_add(t as u64));
+        handles.push(std::thread::spawn(move || {
+            let mut mine: Vec<Box<dyn ResApi>> = vec![];
+            barrier.wait();
+            let body = hutil::catch(AssertUnwindSafe(|| {
+                for _ in 0..iters {
+                    let op = match t {
+                        0 if rng.chance(3, 4) => a,
+                        1 if rng.chance(3, 4) => b,
+                        2 => *rng.pick(&[0usize, 0, 1, 1, 1, 4, 7]),
+                        _ => *rng.pick(&[0usize, 1, 1, 2, 3, 4, 5, 6, 7]),
+                    };
+                    b_call(&*shared, op, &mut rng, &mut mine);
+                }
+            }));
+            (mine, body.err())
+        }));
+    }
+    let mut live: Vec<Box<dyn ResApi>> = vec![];
+    let mut w: Option<(&'static str, String)> = None;
+    for h in handles {
+        match h.join() {
+            Ok((mine, perr)) => {
+                live.extend(mine);
+                if let Some(m) = perr {
+                    w.get_or_insert(("unexpected-panic", format!("a stress thread panicked outside a caught call: {m}")));
+                }
+            }
+            Err(_) => {
+                w.get_or_insert(("unexpected-panic", "a stress thread died".to_string()));
+            }
+        }
+    }
+    // ---- quiescence
+    let sum: usize = shared.size() + live.iter().map(|r| r.size()).sum::<usize>();
+    let reserved = pool.reserved();
+    if w.is_none() && reserved != sum {
+        w = Some(("reserved-ne-sum-at-quiescence", format!("at quiescence reserved()={reserved} but the {} live reservations hold {sum}", live.len() + 1)));
+    }
+    if let Some(track) = &built.track {
+        let ms = track.metrics();
+        if w.is_none() && (ms.len() != 1 || ms[0].reserved != sum || ms[0].peak < ms[0].reserved) {
+            w = Some(("tracked-ne-consumer", format!("at quiescence metrics()={:?} but the consumer's reservations hold {sum}", ms.iter().map(|m| (m.reserved, m.peak)).collect::<Vec<_>>())));
+        }
+        let (pk, mx) = (track.inner().peak_reserved(), track.inner().max_reserved());
+        if w.is_none() && (pk < reserved || mx < pk) {
+            w = Some(("peak-lt-reserved", format!("at quiescence peak_reserved()={pk} max_reserved()={mx} reserved()={reserved}")));
+        }
+    }
+    drop(live);
+    drop(shared);
+    if w.is_none() && pool.reserved() != 0 {
+        w = Some(("nonzero-after-drop", format!("reserved()={} after dropping every reservation", pool.reserved())));
+    }
+    if let Some(track) = &built.track {
+        if w.is_none() && !track.metrics().is_empty() {
+            w = Some(("nonzero-after-drop", "a consumer is still tracked after dropping every reservation".to_string()));
+        }
+    }
+    w
+}
+
+/// all unordered pairs of reservation operations
+fn b_pairs() -> Vec<(usize, usize)> {
+    let mut v = vec![];
+    for a in 0..B_OPS.len() {
+        for b in a..B_OPS.len() {
+            v.push((a, b));
+        }
+    }
+    v
+}
+
+const STRESS_A_CATS: [&str; 4] = ["limit-exceeded", "reserved-ne-sum-at-quiescence", "nonzero-after-drop", "unexpected-panic"];
+const STRESS_B_CATS: [&str; 5] = ["reserved-ne-sum-at-quiescence", "tracked-ne-consumer", "peak-lt-reserved", "nonzero-after-drop", "unexpected-panic"];
+
+fn stress(run: &mut Run, rng: &mut Rng) {
+    let t0 = std::time::Instant::now();
+    // ---------------- class A: limit checks under free-running threads
+    let a_iters = run.budget(6_000, 40_000) as usize;
+    let a_rounds = run.budget(3, 8);
+    let threads = 4usize;
+    for stack in [Stack::Bare, Stack::TrackPeak] {
+        // (label, limit, n, spill)
+        let mut cfgs: Vec<(String, usize, usize, bool)> = vec![];
+        for n in [60usize, 34, 26] {
+            cfgs.push((format!("greedy limit=100 n={n}"), 100, n, false));
+            // fair, every consumer unspillable: first come first served within the pool size
+            cfgs.push((format!("fair-unspillable limit=100 n={n}"), 100, n, false));
+        }
+        // fair, one spilling consumer per thread: each may hold its share, together ≤ pool size
+        cfgs.push(("fair-spillable limit=100 n=25".to_string(), 100, 25, true));
+        cfgs.push(("fair-spillable limit=103 n=25".to_string(), 103, 25, true));
+        for (label, limit, n, spill) in &cfgs {
+            let mut w = None;
+            let mut grants = 0usize;
+            for _ in 0..a_rounds {
+                // a fresh pool per round
+                let inner: Arc<dyn MemoryPool> = if label.starts_with("greedy") { Arc::new(GreedyMemoryPool::new(*limit)) } else { Arc::new(FairSpillPool::new(*limit)) };
+                let cfg = AConfig { label: label.clone(), inner, stack, limit: *limit, n: *n, spill: *spill, threads, iters: a_iters };
+                let (ww, g) = stress_a(&cfg);
+                grants += g;
+                if ww.is_some() {
+                    w = ww.map(|x| (x, cfg.label.clone()));
+                    break;
+                }
+            }
+            run.add("stress-A:grants", grants as u64);
+            run.count("stress-A:configs");
+            for cat in STRESS_A_CATS {
+                let hit = w.as_ref().filter(|((c, _), _)| *c == cat);
+                run.oracle(
+                    hit.is_none(),
+                    &format!("stress-A {cat} pool={label} stack={} threads={threads}", stack.name()),
+                    &hit.map(|((_, d), _)| format!("{threads} threads doing only try_grow({n})/shrink({n}), one consumer each, on {label} ({}): {d}", stack.name())).unwrap_or_default(),
+                );
+            }
+        }
+    }
+    let t_a = t0.elapsed().as_millis();
+    // ---------------- class B: every pair of reservation operations on one shared reservation
+    let b_iters = run.budget(1_500, 6_000) as usize;
+    let b_sweeps = run.budget(1, 4);
+    for stack in [Stack::Bare, Stack::TrackPeak] {
+        for kind in [Kind::U, Kind::G(20_000), Kind::F(20_000)] {
+            let mut w: Option<((&'static str, String), (usize, usize))> = None;
+            'sweep: for sweep in 0..b_sweeps {
+                for (i, (a, b)) in b_pairs().into_iter().enumerate() {
+                    let spill = (i + sweep as usize) % 2 == 0;
+                    let make = move |pool: &Arc<dyn MemoryPool>| -> Box<dyn ResApi> { Box::new(MemoryConsumer::new("c0").with_can_spill(spill).register(pool)) };
+                    let ww = stress_b_round(kind.inner(), stack, &make, a, b, b_iters, rng.next());
+                    run.count("stress-B:rounds");
+                    if let Some(x) = ww {
+                        w = Some((x, (a, b)));
+                        break 'sweep;
+                    }
+                }
+            }
+            for cat in STRESS_B_CATS {
+                let hit = w.as_ref().filter(|((c, _), _)| *c == cat);
+                run.oracle(
+                    hit.is_none(),
+                    &format!(
+                        "stress-B {cat} pool={} stack={} pair={}",
+                        kind.name(),
+                        stack.name(),
+                        hit.map(|(_, (a, b))| format!("{}/{}", B_OPS[*a], B_OPS[*b])).unwrap_or_default()
+                    ),
+                    &hit.map(|((_, d), (a, b))| format!("3 threads on ONE shared reservation of a {} pool ({}), thread 0 mostly {}, thread 1 mostly {}, thread 2 refilling: {d}", kind.name(), stack.name(), B_OPS[*a], B_OPS[*b])).unwrap_or_default(),
+                );
+            }
+        }
+    }
+    let t_b = t0.elapsed().as_millis() - t_a;
+    let cpus = std::thread::available_parallelism().map(|n| n.get()).unwrap_or(1);
+    run.note(&format!(
+        "C17 stress: class A {t_a} ms, class B {t_b} ms (iteration-bounded; wall time is informative only); {cpus} hardware threads available{}",
+        if cpus < 2 { " — the stress detectors need at least 2 to have any power" } else { "" }
+    ));
+}
+
+/// How often do the detectors fire on code that HAS the defect?  Harness-local re-implementations
+/// only (`RacyGreedy`, `RacyRes`); results go to counters / notes, never to the verdict.
+fn stress_selftest(run: &mut Run, rng: &mut Rng) {
+    let trials: u64 = std::env::var("VERIF_C17_SELFTEST_TRIALS").ok().and_then(|s| s.parse().ok()).unwrap_or(run.budget(3, 10));
+    let t0 = std::time::Instant::now();
+    let a_iters = run.budget(6_000, 40_000) as usize;
+    let a_rounds = run.budget(3, 8);
+    let mut a_fired = 0u64;
+    for _ in 0..trials {
+        // exactly what `stress` does for one greedy configuration (n = 60, bare)
+        for _ in 0..a_rounds {
+            let cfg = AConfig { label: "racy-greedy".into(), inner: Arc::new(RacyGreedy { limit: 100, used: AtomicUsize::new(0) }), stack: Stack::Bare, limit: 100, n: 60, spill: false, threads: 4, iters: a_iters };
+            if stress_a(&cfg).0.is_some() {
+                a_fired += 1;
+                break;
+            }
+        }
+    }
+    run.add("stress-selftest:A(load-compare-add greedy) trials", trials);
+    run.add("stress-selftest:A(load-compare-add greedy) fired", a_fired);
+    let b_iters = run.budget(1_500, 6_000) as usize;
+    let mut summary = vec![format!("A load→compare→add: {a_fired}/{trials}")];
+    for defect in [Defect::FreeLoadStore, Defect::GrowLoadStore, Defect::ShrinkLoadStore] {
+        let mut fired = 0u64;
+        let mut rounds_hit = 0u64;
+        let mut rounds = 0u64;
+        for _ in 0..trials {
+            // one sweep over all pairs on one pool kind (what `stress` does per kind × stack), not stopping early
+            let mut any = false;
+            for (a, b) in b_pairs() {
+                let make = move |pool: &Arc<dyn MemoryPool>| -> Box<dyn ResApi> {
+                    let anchor = Arc::new(MemoryConsumer::new("c0").register(pool));
+                    Box::new(RacyRes { anchor, pool: Arc::clone(pool), size: AtomicUsize::new(0), defect })
+                };
+                let w = stress_b_round(Kind::G(20_000).inner(), Stack::Bare, &make, a, b, b_iters, rng.next());
+                rounds += 1;
+                if w.is_some() {
+                    rounds_hit += 1;
+                    any = true;
+                }
+            }
+            if any {
+                fired += 1;
+            }
+        }
+        run.add(&format!("stress-selftest:B({defect:?}) trials"), trials);
+        run.add(&format!("stress-selftest:B({defect:?}) fired"), fired);
+        run.add(&format!("stress-selftest:B({defect:?}) rounds-with-witness"), rounds_hit);
+        summary.push(format!("B {defect:?}: {fired}/{trials} sweeps, {rounds_hit}/{rounds} rounds"));
+    }
+    run.note(&format!("C17 stress selftest on harness-local defective re-implementations (detections / trials): {} [{} ms]", summary.join("; "), t0.elapsed().as_millis()));
+}
+
 pub fn run(run: &mut Run, args: &Args) {
     let mut rng = Rng::new(args.seed);
     hutil::quiet_panics();
@@ -906,5 +1503,8 @@ pub fn run(run: &mut Run, args: &Args) {
             }
         }
     }
+    // ---- real-thread stress oracles (classes A and B), then the detectors' self-test
+    stress(run, &mut rng);
+    stress_selftest(run, &mut rng);
     let _ = std::panic::take_hook();
 }
